@@ -1205,6 +1205,8 @@ static void quiescent_hook(bool real_poll) {
 
 void teardown() {
     sim::tr("teardown", W->teardown_style);
+    // avoid(known finding: task thread vs module stop): outside C04 let running task bodies finish before modules go away
+    if (!on("C04") && R->threads.size() > 1 && !sim::all_others_done()) sim::sleep_ns(50000000ULL);
     // 1. stop a loop that is still running (dispatch mode)
     bool known;
     if (ctx_is_looping_probe(&known)) {
